@@ -167,17 +167,45 @@ def untempered(nu):
 def first_moments(nu, fv, lo=None, hi=None):
     """(m1 over (-1,1) [None if infinite variation], m1 over the two tails, errors) by quadrature, optionally clipped to [lo, hi]"""
     def clip(pts):
+        """the break points restricted to [lo, hi] ∩ [pts[0], pts[-1]] (None when that intersection is empty or a point).
+        The first version appended `hi` to every clipped list: with lo < -1 and hi <= 1 the 'left tail' then ran up to hi and the
+        middle part was counted twice (false alarm met with VERIF_SEED=10: a uniform grid truncated to [-100, 0.1])."""
         if lo is None:
             return pts
-        out = [p for p in pts if lo <= p <= hi]
-        out = [mp.mpf(lo)] + [p for p in out if p != lo and p != hi] + [mp.mpf(hi)]
-        return out
+        a, b = max(mp.mpf(lo), pts[0]), min(mp.mpf(hi), pts[-1])
+        if not a < b:
+            return None
+        return [a] + [p for p in pts if a < p < b] + [b]
+
+    def refine(pts):
+        if pts is None:
+            return None
+        """break points at the features of the density (a narrow Merton jump law far from 0 is missed by a quadrature that only
+        knows the ends of the interval: false alarm met with VERIF_SEED=10, sigma_j = 0.0156, mu_j = 0.083, segment [0, 0.1]) and
+        a uniform subdivision of every finite segment"""
+        pts = list(pts)
+        feats = []
+        prm = getattr(nu, "parameters", None) or getattr(getattr(nu, "levy_measure", None), "parameters", None)
+        mu, sg = getattr(prm, "mu_j", None), getattr(prm, "sigma_j", None)
+        if mu is not None and sg:
+            feats = [mp.mpf(float(mu) + k * float(sg)) for k in (-8, -4, -2, -1, 0, 1, 2, 4, 8)]
+        out = []
+        for a, b in zip(pts, pts[1:]):
+            seg = [a]
+            if mp.isinf(a) or mp.isinf(b):
+                seg += sorted(f for f in feats if a < f < b)
+            else:
+                cuts = [a + (b - a) * mp.mpf(j) / 8 for j in range(1, 8)]
+                seg += sorted(set(cuts + [f for f in feats if a < f < b]))
+            out += seg
+        return out + [pts[-1]]
     g = lambda x: x
     mid, e1 = (None, 0.0)
     if fv:
-        mid, e1 = quad_against(nu, g, clip([-1, mp.mpf(-1) / 8, 0, mp.mpf(1) / 8, 1]))
-    left = clip([-mp.inf, -4, -1]) if lo is None or lo < -1 else None
-    right = clip([1, 4, mp.inf]) if hi is None or hi > 1 else None
+        seg_mid = refine(clip([mp.mpf(-1), mp.mpf(-1) / 8, mp.mpf(0), mp.mpf(1) / 8, mp.mpf(1)]))
+        mid, e1 = quad_against(nu, g, seg_mid) if seg_mid else (mp.mpc(0), 0.0)
+    left = clip([-mp.inf, mp.mpf(-4), mp.mpf(-1)]) if lo is None or lo < -1 else None
+    right = clip([mp.mpf(1), mp.mpf(4), mp.inf]) if hi is None or hi > 1 else None
     tails, e2 = mp.mpc(0), 0.0
     ul, ur, c_, y_ = untempered(nu)
     if lo is None and (ul or ur):
@@ -189,7 +217,7 @@ def first_moments(nu, fv, lo=None, hi=None):
             right, tails = None, tails + c_ / (y_ - 1)
     for seg in (left, right):
         if seg and len(seg) >= 2:
-            v, e = quad_against(nu, g, seg)
+            v, e = quad_against(nu, g, refine(seg))
             tails += v
             e2 += e
     return (None if mid is None else float(mid.real)), float(tails.real), e1 + e2
